@@ -39,15 +39,15 @@ CORR = (1, 2, 3, 4, 5, 6, 7)
 # oracle tag -> [(guard tag that must be present (= guard false), finding id)]
 ORACLE = {
     11: [],
-    12: [(203, 'C16-INDEX-CRASH'), (205, 'C16-ANNOT-TORN'), (201, 'C16-ANNOT-NEWLINE'), (207, 'C16-DATAINFO-LOST'),
-         (208, 'C16-NAME-REBIND')],
-    13: [(204, 'C16-PENDING-RETRANSACT'), (205, 'C16-ANNOT-TORN'), (201, 'C16-ANNOT-NEWLINE')],
-    14: [(203, 'C16-INDEX-CRASH')],
-    16: [(201, 'C16-ANNOT-NEWLINE'), (205, 'C16-ANNOT-TORN')],
-    17: [(202, 'C16-LOG-NA'), (206, 'C16-LOG-TORN')],
+    12: [(207, 'C16-DATAINFO-LOST'), (208, 'C16-NAME-REBIND'), (201, 'C16-ANNOT-NAME-SPACE')],
+    13: [(204, 'C16-PENDING-RETRANSACT'), (201, 'C16-ANNOT-NAME-SPACE')],
+    14: [],
+    16: [(201, 'C16-ANNOT-NAME-SPACE')],
+    17: [(202, 'C16-LOG-NUL'), (206, 'C16-LOG-TORN')],
 }
 
 TOP = {'.modeldb': 'CDb', 'models': 'CModels', 'annotations': 'CAnnot', 'annotations.lock': 'CAnnotLock',
+       'annotations.tmp': 'CAnnotTmp',
        'log.csv': 'CLog', 'log.lock': 'CLogLock', 'subcontexts': 'CSub', 'common_options': 'CCommon'}
 KEYFILES = {'.pharmpy': 'CPharmpy', 'model.ctl': 'CModelFile'}
 METAFILES = {'PENDING': 'CPending', 'results.json': 'CResults', 'metadata.json': 'CMetadata'}
@@ -167,6 +167,8 @@ class Canon:
         if ev == 'os.symlink':
             tgt = os.path.normpath(os.path.join(os.path.dirname(e['path']), e['target']))
             return f'(Symlink {self.abspath(root, tgt)} {p})'
+        if ev == 'os.rename':
+            return f"(Rename {p} {self.abspath(root, e['target'])})"
         if ev == 'open':
             fl = e.get('flags')
             if fl is None:
@@ -310,6 +312,7 @@ TEXTS = ['plain text', 'PHENOBARB SIMPLE MODEL', 'a,b', 'q"uo"te', '', ' lead', 
 MODEL_DESCS = [t for t in TEXTS if t not in (' lead', 'é€ unicode')]
 BAD_ANNOT = ['line1\nline2', 'cr\rx', 'end\r']
 LOG_TEXTS = TEXTS + ['multi\nline', 'cr\rx', 'crlf\r\ny', '""', '"', 'run 1 done', 'Model failed: NaN in OFV']
+# formerly read back as NaN / numbers (C16-LOG-NA, fixed); NUL still cuts the message (C16-LOG-NUL)
 BAD_LOG = ['NA', '', 'null', 'nan', 'None', 'N/A', '1', '1.5', 'True', 'inf', 'x\x00y', '#N/A']
 
 
@@ -440,7 +443,7 @@ def gen_codec_workload(rng):
     return {'models': models, 'w1': w1}
 
 
-MUTATING = ('os.mkdir', 'os.remove', 'os.symlink')
+MUTATING = ('os.mkdir', 'os.remove', 'os.symlink', 'os.rename')
 
 
 def crash_points(events, dense=True):
@@ -580,6 +583,8 @@ def finding_probes(ctx):
 
 
 def run(ctx):
+    # entries of known_findings.d/C16.json (newer) replace entries with the same id of known_findings.json
+    ctx.findings = list({f['id']: f for f in ctx.findings}.values())
     ctx.build_gate(['C16'])
     ctx.trusted += [
         'harness/props/c16.py + c16_worker.py: CPython audit hook (events open, os.mkdir, os.utime, os.listdir, os.remove, '
@@ -671,7 +676,7 @@ def run(ctx):
             'events_w2_total': sum(len(o['ev2']) for o in kept_obs),
             'recovery_item_errors': _hist(o2_['err'] for o in kept_obs for o2_ in o['out2'].values() if not o2_['ok']),
             'w1_item_errors': _hist(o1_['err'] for o in kept_obs for o1_ in o['out1'].values() if not o1_['ok']),
-            'guard_false': {str(g): sum(1 for v in verdicts if g in v) for g in (201, 202, 203, 204, 205, 206, 207, 208)},
+            'guard_false': {str(g): sum(1 for v in verdicts if g in v) for g in (201, 202, 204, 206, 207, 208)},
             'oracle_tags': {str(t): sum(1 for v in verdicts if t in v) for t in ORACLE},
             'inconclusive_subchecks': sum(1 for v in verdicts for t in v if t >= 1000),
             'workload_lengths': _hist(len(s['w1']) for s in kept),
